@@ -15,6 +15,12 @@ Definition mset_eqb {X} (e : X -> X -> bool) (a b : list X) : bool :=
 Definition inst_lists_eqb (a b : instance) : bool :=
   mset_eqb constr_eqb (i_cs a) (i_cs b) && mset_eqb removed_eqb (i_rs a) (i_rs b).
 
+(* everything but the two constraint lists: relax / restore (successful or not) must leave it alone *)
+Definition frame_eqb (a b : instance) : bool :=
+  (i_sense a =? i_sense b)%Z && optb fn_eqb (i_obj a) (i_obj b) && list_eqb dvar_eqb (i_dvs a) (i_dvs b) &&
+  mset_eqb (fun x y : N * function => (fst x =? fst y)%N && fn_eqb (snd x) (snd y)) (i_deps a) (i_deps b) &&
+  optb state_eqb (i_params a) (i_params b) && tree_eqb (i_hints a) (i_hints b) && tree_eqb (i_desc a) (i_desc b).
+
 Definition d_rop (t : tree) : option rop :=
   match t with
   | L [A "relax"; i; r; p] => do i' <- d_N i; Some (Relax i' r p)
@@ -82,6 +88,8 @@ Fixpoint replay (I : instance) (s : state) (states : list state) (ops : list rop
           then disagree "operation must succeed iff the id is in the expected list" (L [e_bool okb; e_lists I'])
           else if negb (inst_lists_eqb Isdk I')
           then disagree "active / removed lists after the operation (only the named constraint moves, with the given reason; a failed operation changes nothing)" (e_lists I')
+          else if negb (frame_eqb Isdk I')
+          then disagree "nothing but the two constraint lists may change (sense, objective, variables, dependencies, parameters, hints, description)" (e_lists I')
           else
             match judge_inst_eval Isdk s ev with
             | L (A "agree" :: _) =>
